@@ -9,13 +9,19 @@ from .. import impl
 from .. import effects
 
 TRUSTED = [
-    "Coq 8.16.1 kernel + vm_compute",
-    "stage G: harness/effects.py (a fail-closed Python-ast translator) regenerates coq/build Gen_effects.v from /repo on every run; its table "
-    "classifying numpy / scipy / sklearn / pandas callees as view-returning, copy-returning or mutating is trusted and validated dynamically",
-    "Eff/Analysis.v: flow-insensitive may-alias / may-write analysis with a Coq soundness theorem for the effect IR semantics (statements may "
-    "execute in any order, any number of times); interprocedural summaries are computed inside Coq bottom-up",
+    "Coq 8.16.1 kernel + vm_compute; no axioms (Print Assumptions: closed under the global context for every C20 theorem)",
+    "stage G: harness/effects.py (a fail-closed Python-ast translator) regenerates Gen_effects.v (effect IR: alias / fresh / in-place write / call with "
+    "copy-in copy-out object attributes) from /repo/pysensors on every run; the translator and its tables classifying numpy / scipy / sklearn / pandas / "
+    "builtin callees as view-returning, copy-returning or mutating are trusted, and validated by the dynamic part; assumptions written into the tables: "
+    "self.optimizer / self.basis hold pysensors optimizers / bases, user-supplied callables and estimators do not mutate their arguments, keyword names "
+    "given to GQR.fit are the documented settings, external routines are never switched to in-place operation (any overwrite_* / inplace / copy_X "
+    "keyword or string in the source makes the translator fail closed)",
+    "Eff/IR.v semantics: a function body is a bag of statements that may run in any order, any number of times (over-approximates all control flow); "
+    "attributes are field-based globals; Eff/Sound.v + Eff/HistoryProofs.v: the executable analysis evaluated on the regenerated model "
+    "(history_safe_fast) is sound for every history of caller allocations and public calls",
+    "internal helpers with an in-place contract (norm_calc functions on dlens, qr_reflector on r) are analysed but are not entry points",
     "dynamic validation: byte-wise snapshots of every argument before/after every public call and calls with read-only (non-writeable) arrays",
-    "memory behaviour inside C extensions is outside the model",
+    "memory behaviour inside C extensions (LAPACK, sklearn) is outside the model",
 ]
 
 
